@@ -33,10 +33,13 @@ CASES = [
     m('blank-test-dropped', 'R5', 'verify:blank', SRC,
       "    if code.strip() == '':\n        blank_source(", "    if code == '':\n        blank_source("),
     # fix 76b227e: the null-byte SyntaxError carries no file name
-    m('revert-fix-missing-filename', 'R9', 'null-byte-error:HtmlFormatter', SRC,
-      "        if e.filename is None:\n            # CPython gives no filename for some errors (e.g., null bytes in the source)\n            e.filename = filename\n", ""),
-    m('missing-filename-only-passed-not-stored', 'R9', 'null-byte-error:TerminalFormatter', SRC,
-      "        if e.filename is None:\n            # CPython gives no filename for some errors (e.g., null bytes in the source)\n            e.filename = filename\n        syntax_error(e.lineno, e.filename, code,", "        syntax_error(e.lineno, e.filename or filename, code,"),
+    # (since 12d227e the traceback itself names a file-less frame "<string>": without the fix in verify() the syntax
+    #  error is still filed without raising, so reverting it alone is benign for this property)
+    dict(name='twin-revert-fix-missing-filename', kind='twin', edits=[dict(file=SRC, old="        if e.filename is None:\n            # CPython gives no filename for some errors (e.g., null bytes in the source)\n            e.filename = filename\n", new="")]),
+    dict(name='revert-both-fixes-missing-filename', kind='mutant', rule='R9', key='null-byte-error:TerminalFormatter', edits=[
+        dict(file=SRC, old="        if e.filename is None:\n            # CPython gives no filename for some errors (e.g., null bytes in the source)\n            e.filename = filename\n", new=""),
+        dict(file=UX, old='            filename = self.exception.filename if self.exception.filename is not None else "<string>"\n',
+             new='            filename = self.exception.filename\n')]),
     # the property says "never raises", not where the missing name is supplied: formatters that render whatever they get
     dict(name='twin-formatters-tolerate-missing-filename', kind='twin', edits=[
         dict(file=SRC, old="        if e.filename is None:\n            # CPython gives no filename for some errors (e.g., null bytes in the source)\n            e.filename = filename\n", new=""),
